@@ -68,7 +68,7 @@ def main():
                 x = e[p]
                 out = (x['message'] or 'no violation reported') + (' (no-failing-input-found)' if x['no_failing_input'] else '')
                 f.write('| %s | %s | %d | %s |\n' % (sid, p, x['exit'], out.replace('|', '/')))
-    missed = [s for s, e in results.items() if 'error' not in e and e.get(json.load(open(os.path.join(SEEDED, s, 'meta.json')))['breaks_property'], {}).get('exit') != 1]
+    missed = [s for s, e in results.items() if 'error' in e or e.get(json.load(open(os.path.join(SEEDED, s, 'meta.json')))['breaks_property'], {}).get('exit') != 1]
     print('missed (primary property not reported):', missed)
 
 
